@@ -729,13 +729,17 @@ impl<Backing : AsRef<[u32]> + AsMut<[u32]>> DrawTarget<Backing> {
         let iy = y as i32;
         let iwidth = width as i32;
         let iheight = height as i32;
-        let integer_rect = ix as f32 == x        && iy as f32 == y &&
-                                iwidth as f32 == width && iheight as f32 == height;
+        // (compared in f64: i32::MAX as f32 rounds up to 2^31, which the saturating casts above
+        // would accept as an integer although it does not fit)
+        let integer_rect = ix as f64 == x as f64         && iy as f64 == y as f64 &&
+                                iwidth as f64 == width as f64 && iheight as f64 == height as f64;
 
         if self.transform == Transform::identity() && integer_rect && self.clip_stack.is_empty() {
             let bounds = intrect(0, 0, self.width, self.height);
             // a negative width or height describes the same rectangle as the path route fills
-            let mut irect = intrect(ix.min(ix + iwidth), iy.min(iy + iheight), ix.max(ix + iwidth), iy.max(iy + iheight));
+            // (an edge beyond the i32 range lies beyond every surface: saturating keeps the intersection)
+            let (x2, y2) = (ix.saturating_add(iwidth), iy.saturating_add(iheight));
+            let mut irect = intrect(ix.min(x2), iy.min(y2), ix.max(x2), iy.max(y2));
             irect = match irect.intersection(&bounds) {
                 Some(irect) => irect,
                 _ => return,
